@@ -114,6 +114,14 @@ class Check(PropertyCheck):
             tr.reset()
         # (graphs pruned by their owner before the hand-over are left to C12/C18: C17 speaks of the graphs the builders yield - in a
         #  pruned graph `remove_node`'s own sweep of isolated nodes can take an unscheduled operation's node, by design)
+        scribble = False
+        if rng.random() < 0.1:
+            # a composite over the completion flags exists before the updater is attached (the updater then shares that observer),
+            # and a third party keeps writing into the matrices the composite hands out
+            lines = [l for l in lines if not l.startswith(("fobs", "funsub", "disp", "reset", "fsnap"))]     # (this observer comes first: id 0)
+            tr.reset()
+            lines += ["fobs is_completed mj", "fcomp 0"]
+            scribble = True
         if rng.random() < 0.12:
             # the updater is built with subscribe=False and subscribed by hand afterwards (before the first event)
             lines += [f"fresn {b} {rm} {rj}", "fsub last", "fsnap"]
@@ -125,7 +133,7 @@ class Check(PropertyCheck):
                 j, p, m = gen.gen_valid_request(rng, tr)
                 tr.take(j)
                 n_acc += 1
-                lines += [f"disp {j} {p} {m}", "fsnap"]
+                lines += (["scribble"] if scribble else []) + [f"disp {j} {p} {m}", "fsnap"]
                 if ep < n_eps - 1 and rng.random() < 0.05:
                     break
             if ep < n_eps - 1:
